@@ -165,6 +165,14 @@ def script_drift_between_review_and_apply(rng):
             {'k': 'mutate', 'm': rng.choice([1, 1, 2])}, {'k': 'apply', 'adopt': rng.random() < 0.5},
             {'k': 'deploy'}, {'k': 'apply', 'adopt': True}]
 
+def script_machine_overlay_drift(rng):
+    """the reviewed plan of a call with an explicit `machine` depends on that machine's overlays: deploy {machine: m2}
+    issues T, the m2 overlay of the module is written (or removed), deploy_apply {machine: m2} with T must answer
+    E_CONFIRM_TOKEN_MISMATCH — the plan is recomputed for the SAME arguments; a fresh review then applies"""
+    pre = [{'k': 'mutate', 'm': 6}] if rng.random() < 0.4 else []
+    return pre + [{'k': 'deploy', 'b': 4}, {'k': 'mutate', 'm': 6}, {'k': 'apply', 'adopt': True, 'b': 4},
+                  {'k': 'deploy', 'b': 4}, {'k': 'apply', 'adopt': True, 'b': 4}]
+
 def run_tool_scenario(ctx, idx, depth, script=None):
     rng = ctx.rng
     sb = Sandbox('c11')
@@ -180,7 +188,7 @@ def run_tool_scenario(ctx, idx, depth, script=None):
             forced = script[step] if script else None
             k = rng.random() if not forced else {'deploy': 0.0, 'apply': 0.3, 'mutate': 0.7, 'tick': 0.9, 'restart': 0.99}[forced['k']]
             if k < 0.27:
-                b = rng.choice(tw.bindings) if not forced else tw.bindings[0]
+                b = rng.choice(tw.bindings) if not forced else tw.bindings[forced.get('b', 0)]
                 msg, env = tw.server.call('deploy', b)
                 if env is None:
                     ctx.violation('deploy tool returned no envelope', {'stream': 'tool', 'trace': trace}); return None
@@ -211,7 +219,7 @@ def run_tool_scenario(ctx, idx, depth, script=None):
                     tok = None
                 yes = rng.random() < 0.85; dry = rng.random() < 0.12; adopt = rng.random() < 0.4
                 if forced:
-                    b = tw.bindings[0]; yes = True; dry = False; adopt = forced['adopt']
+                    b = tw.bindings[forced.get('b', 0)]; yes = True; dry = False; adopt = forced['adopt']
                     tok = issued[-1][0] if issued else 'deadbeef' * 8
                 args = dict(b); args['yes'] = yes
                 if tok is not None: args['confirm_token'] = tok
@@ -353,6 +361,9 @@ def run(ctx):
         if r: cases.append(r)
     for i in range(4 if quick else 40):
         r = run_tool_scenario(ctx, 20000 + i, 0, script=script_drift_between_review_and_apply(ctx.rng))
+        if r: cases.append(r)
+    for i in range(4 if quick else 40):
+        r = run_tool_scenario(ctx, 30000 + i, 0, script=script_machine_overlay_drift(ctx.rng))
         if r: cases.append(r)
     for c in ctx.corr('tool', HEADER, 'check_tool', 'list op * list (N * str * str)', cases, shard_chars=30000):
         ctx.violation('model and implementation disagree on the deploy/deploy_apply state machine', c, no_input=True)
